@@ -284,6 +284,65 @@ func init() {
 	invokeModels["io.Writer.Write"] = rw("io.Writer.Write", false)
 	invokeModels["io.ReaderAt.ReadAt"] = rw("io.ReaderAt.ReadAt (never returns data beyond datalen(r))", true)
 
+	// ---- hashing / chacha (abstract, deterministic) ----
+	staticModels["crypto/sha256.New"] = &model{name: "crypto/sha256.New() returns a fresh hash in the initial state hinit", mods: func(c *VCtx, cc *ssa.CallCommon) map[string]Sort {
+		return map[string]Sort{"G:hstate": ArrSort(SRef, SInt)}
+	},
+		run: func(c *VCtx, fr *Frame, st *State, cc *ssa.CallCommon, args []Val, res types.Type) Val {
+			h := c.freshRef(st, "hash")
+			h.GT = res
+			hs := c.heap(st, "G:hstate", ArrSort(SRef, SInt))
+			c.setHeap(st, "G:hstate", Store(hs, h, c.declare("hinit", SInt)))
+			return h
+		}}
+	invokeModels["hash.Hash.Write"] = &model{name: "hash.Hash.Write(p) absorbs the byte sequence p: state' = absorb(state, canon(p)); returns (len(p), nil)", mods: func(c *VCtx, cc *ssa.CallCommon) map[string]Sort {
+		return map[string]Sort{"G:hstate": ArrSort(SRef, SInt)}
+	},
+		run: func(c *VCtx, fr *Frame, st *State, cc *ssa.CallCommon, args []Val, res types.Type) Val {
+			h, p := c.asTerm(args[0]), c.asTerm(args[1])
+			c.safety(fr, st, "nilderef", Not(Eq(h, Null)), cc.Pos())
+			hs := c.heap(st, "G:hstate", ArrSort(SRef, SInt))
+			eh := c.heap(st, elemHeapName(SInt), ArrSort(SRef, ArrSort(SInt, SInt)))
+			fn := c.declareFun("absorb", []Sort{SInt, SInt}, SInt)
+			ns := T(SInt, fmt.Sprintf("(%s %s %s)", fn, Select(hs, h).S, c.canon(Select(eh, SlArr(p)), SlOff(p), SlLen(p)).S))
+			c.setHeap(st, "G:hstate", Store(hs, h, ns))
+			return Tuple{TG(SInt, types.Typ[types.Int], SlLen(p).S), Null}
+		}}
+	invokeModels["hash.Hash.Sum"] = &model{name: "hash.Hash.Sum(nil) returns a fresh slice holding digest(state)", mods: func(c *VCtx, cc *ssa.CallCommon) map[string]Sort {
+		return map[string]Sort{elemHeapName(SInt): ArrSort(SRef, ArrSort(SInt, SInt)), "G:alloc": ArrSort(SRef, SBool)}
+	},
+		run: func(c *VCtx, fr *Frame, st *State, cc *ssa.CallCommon, args []Val, res types.Type) Val {
+			h, b := c.asTerm(args[0]), c.asTerm(args[1])
+			c.safety(fr, st, "nilderef", Not(Eq(h, Null)), cc.Pos())
+			if b.S != "nil_slice" {
+				unsup("hash.Sum with a non-nil prefix")
+			}
+			hs := c.heap(st, "G:hstate", ArrSort(SRef, SInt))
+			arr := c.freshRef(st, "arr")
+			fn := c.declareFun("digest", []Sort{SInt}, ArrSort(SInt, SInt))
+			eh := c.heap(st, elemHeapName(SInt), ArrSort(SRef, ArrSort(SInt, SInt)))
+			c.setHeap(st, elemHeapName(SInt), Store(eh, arr, T(ArrSort(SInt, SInt), fmt.Sprintf("(%s %s)", fn, Select(hs, h).S))))
+			n := c.fresh("dlen", SInt)
+			c.fact(And(Ge(n, IntLit(0)), Le(n, IntLit(64))))
+			if fnm := c.declareFun("digestlen", nil, SInt); fnm != "" {
+				c.fact(Eq(n, T(SInt, fnm)))
+			}
+			return MkSlice(arr, IntLit(0), n, n, res)
+		}}
+	staticModels["math/rand/v2.NewChaCha8"] = &model{name: "rand.NewChaCha8(seed) returns a fresh source whose stream U(src, .) is a function of the seed bytes srcseed(src) alone", mods: func(c *VCtx, cc *ssa.CallCommon) map[string]Sort {
+		return map[string]Sort{"G:srccnt": ArrSort(SRef, SInt), "G:alloc": ArrSort(SRef, SBool)}
+	},
+		run: func(c *VCtx, fr *Frame, st *State, cc *ssa.CallCommon, args []Val, res types.Type) Val {
+			seed := c.asTerm(args[0])
+			src := c.freshRef(st, "src")
+			src.GT = res
+			kf := c.declareFun("srcseed", []Sort{SRef}, ArrSort(SInt, SInt))
+			c.fact(T(SBool, fmt.Sprintf("(= (%s %s) %s)", kf, src.S, seed.S)))
+			h := c.heap(st, "G:srccnt", ArrSort(SRef, SInt))
+			c.setHeap(st, "G:srccnt", Store(h, src, IntLit(0)))
+			return src
+		}}
+
 	// ---- time ----
 	staticModels["time.AfterFunc"] = &model{name: "time.AfterFunc(d, f): f runs once on its own goroutine at some later time unless stopped first", mods: noMods,
 		run: func(c *VCtx, fr *Frame, st *State, cc *ssa.CallCommon, args []Val, res types.Type) Val {
